@@ -23,6 +23,12 @@ func main() {
 		{Name: "gen-det", Gen: genGenDet},
 		{Name: "gen-rand", Gen: genGenRand},
 		{Name: "findings", Gen: genFindings},
+		{Name: "deep-classic", Gen: genDeepClassic},
+		{Name: "deep-spine", Gen: genDeepSpine},
+		{Name: "deep-tree", Gen: genDeepTree},
+		{Name: "deep-ladder", Gen: genDeepLadder},
+		{Name: "deep-prog", Gen: genDeepProg},
+		{Name: "deep-lcg", Gen: genDeepLCG},
 		{Name: "dir-big", Gen: genDirBig},
 		{Name: "und-big", Gen: genUndBig},
 		{Name: "und-traverse", Gen: genUndTraverse},
